@@ -348,6 +348,10 @@ static Res eval_frame(Sys &S, const Frame &f) {
     return fail("oversized-bead-mapped-" + sy + "-" + bt, "a parent is " + bsx::fmt((double)dmax) + " from the first parent (nearest image) > half the shortest box height " +
                                                         bsx::fmt((double)(0.5L * shortest_height(f))) + " but TopologyMap::Apply mapped it, C1 pos " +
                                                         v3s(S.cg.getBead(0)->getPos()));
+  if (status == 0 && threw && D.sym == 3 && k < 3) {  // clean rejection of an ellipsoid without enough parents for its axes: allowed
+    R.cls = "ellipsoid-with-fewer-than-3-parents-rejected-by-Apply";
+    return R;
+  }
   if (status == 0 && threw)
     return fail("valid-bead-rejected-" + sy + "-" + bt + (haspos ? "" : "-nopos"), "Apply threw although the largest parent distance is " + bsx::fmt((double)dmax));
   if (threw) return R;
@@ -472,6 +476,10 @@ static Res eval_case_fresh(const Case &c) {
     SP = std::make_unique<Sys>(c.def, c.pres);
   } catch (const std::exception &e) {
     Res r;
+    if (c.def.sym == 3 && c.def.k < 3) {  // an ellipsoid needs three parents for its axes: a clean rejection is allowed
+      r.cls = "ellipsoid-with-fewer-than-3-parents-rejected-at-setup";
+      return r;
+    }
     r.ok = false; r.key = "definition-rejected"; r.what = std::string("LoadMoleculeType/CreateCGTopology threw: ") + e.what();
     return r;
   }
@@ -854,7 +862,7 @@ int main(int argc, char **argv) {
           R.cls(f[0]);
         });
   }
-  R.counters["units_total"] = (long long)U.size();
+  if (a.shard == 0) R.counters["units_total"] = (long long)U.size();
   R.assumptions = {"d coefficients are normalised to sum 1 like the weights (manual: sum_i d_Ii = 1), so the force coefficient is (d_i/sum d)/(w_i/sum w)",
                    "zero-weight parents: force coefficient 0 or 1 both accepted (0/0 is not defined by the statement); definitions with d!=0 where w=0 are not enumerated",
                    "presence of positions/velocities/forces is frame-wide (all atoms or none); nothing is asserted about a quantity the atoms do not carry",
